@@ -43,13 +43,21 @@ def findings():
 
 def scan_cfg():
     """The loop constants and switches as the translator extracted them:
-    ((default, cap, factor, lossy, slot cursor), recognised?).
+    ((default, cap, factor, lossy, slot cursor, TYPE value lower-cased), recognised?).
     When the source is no longer recognised the last known constants are used for the search."""
     src = open(os.path.join(LEAN, "FerrousSpec", "Gen", "ScanConsts.lean")).read()
-    m = re.search(r"def scanCfg : Ferrous\.Scan\.Cfg := ⟨(\d+), (\d+), (\d+), (true|false), (true|false)⟩", src)
+    m = re.search(r"def scanCfg : Ferrous\.Scan\.Cfg := ⟨(\d+), (\d+), (\d+), (true|false), (true|false), (true|false)⟩", src)
     if m:
-        return (int(m.group(1)), int(m.group(2)), int(m.group(3)), 1 if m.group(4) == "true" else 0, 1 if m.group(5) == "true" else 0), True
-    return (10, 1000, 10, 0, 0), False
+        return tuple([int(m.group(i)) for i in (1, 2, 3)] + [1 if m.group(i) == "true" else 0 for i in (4, 5, 6)]), True
+    return (10, 1000, 10, 0, 1, 1), False
+
+
+def type_spellings(r, t):
+    """the same type name in lower, upper, capitalised and randomly mixed case"""
+    return [t, t.upper(), t.capitalize(), "".join(ch.upper() if r.chance(1, 2) else ch for ch in t), t[:-1] + t[-1].upper()]
+
+
+UNKNOWN_TYPES = [b"foo", b"strin", b"strings", b"", b"str\xff", b"none", b" string", b"string ", b"z\xc5\xbfet"]
 
 
 # Pairs of names with the same scan_slot (FNV-1a 64 >> 11), found once by a birthday search over 2^29 eight-character
@@ -67,7 +75,7 @@ def scan_slot(name):
     return fnv1a(name) >> 11
 
 
-def norm_count(count, cfg=(10, 1000, 10, 0, 0)):
+def norm_count(count, cfg=(10, 1000, 10, 0, 1, 1)):
     return min(count if count != 0 else cfg[0], cfg[1])
 
 
@@ -478,10 +486,20 @@ def gen_desc(r, count, regime):
         if pat is not None and r.chance(1, 2):
             pat = r.choice([None, b"*", b"?" * 8, collide[0][:2] + b"*"])
     ty = None
+    type_class = None
     if kind == "keys" and r.chance(2, 5):
-        ty = r.choice(TYPES).encode() if r.chance(9, 10) else r.choice([b"STRING", b"foo", b"", b"str\xff", b"Hash"])
+        base_t = r.choice(TYPES)
+        k3 = r.below(10)
+        if k3 < 5:
+            ty, type_class = base_t.encode(), "lower"
+        elif k3 < 9:
+            ty = r.choice(type_spellings(r, base_t)[1:]).encode()
+            type_class = "lower" if ty.decode() == base_t else "other-case"
+        else:
+            ty, type_class = r.choice(UNKNOWN_TYPES), "unknown"
     # with a TYPE filter draw the types from two kinds so that the view is not tiny
-    pool = TYPES if ty is None or ty.decode("latin1") not in TYPES else [ty.decode(), ty.decode(), r.choice(TYPES)]
+    tl = ty.decode("latin1").lower() if ty is not None else None
+    pool = TYPES if tl not in TYPES else [tl, tl, r.choice(TYPES)]
     regime_z = r.choice(SCORE_REGIMES)
     ctx = {"pool": pool, "states": r.chance(1, 3), "sizes": r.chance(1, 3), "regime": regime_z,
            "fixed": gen_score(r, "mixed", None)}
@@ -516,8 +534,9 @@ def gen_desc(r, count, regime):
         steps.append(batch)
     return {"kind": kind, "count": count, "pattern": hx(pat) if pat is not None else None,
             "type": hx(ty) if ty is not None else None, "novalues": kind == "h" and r.chance(1, 3),
-            "via_cmd": r.chance(1, 4), "initial": initial, "steps": steps,
-            "score_regime": regime_z if kind == "z" else None}
+            # a spelling other than the canonical lower-case name only has a meaning for the command (handle_scan), not for the engine call
+            "via_cmd": True if type_class == "other-case" else r.chance(1, 4), "initial": initial, "steps": steps,
+            "score_regime": regime_z if kind == "z" else None, "type_class": type_class}
 
 
 def rand_case(r, s):
@@ -532,7 +551,7 @@ class C19:
         self.model = lean_driver("scan")
         self.cfg = scan_cfg()
         self.slot = bool(self.cfg[0][4])          # cursor scheme of the tree: slot (True) or rank (False)
-        if self.model.ask("cfg %d %d %d %d %d" % self.cfg[0]) != "ok":
+        if self.model.ask("cfg %d %d %d %d %d %d" % self.cfg[0]) != "ok":
             raise InternalError("Lean driver refused the scan constants")
         self.findings = findings()
         self.oracle_failures = []     # (shape, what, desc, detail)
@@ -708,7 +727,9 @@ class C19:
             self.apply(kind, ["add", name_hex, aux], truth)
 
         def in_view(name, aux):
-            return kind != "keys" or ty is None or aux.encode() == ty
+            # TYPE names the type without regard to case (Redis: strcasecmp); an unknown name selects nothing.
+            # (Engine-level calls are only ever given the canonical lower-case names or unknown names.)
+            return kind != "keys" or ty is None or aux.encode() == bytes(c + 32 if 0x41 <= c <= 0x5A else c for c in ty)
 
         snaps, views, cursors, returned, lines = [], [], [0], [], []
         fails = []
@@ -827,6 +848,10 @@ class C19:
                 rep.count("iter.deletion-before-slot-cursor")
         outcome = "missed" if missed_known or missed_new else ("dup" if dup else "exact")
         rep.count("iter." + kind)
+        if ty is not None:
+            tcls = desc.get("type_class") or ("lower" if desc["type"] and unhx(desc["type"]).decode("latin1") in TYPES else "corpus")
+            rep.count("scan.type-option.%s.%s" % (tcls, "cmd" if desc["via_cmd"] else "engine"))
+            rep.nontrivial(("type-option", tcls, desc["via_cmd"], pat is not None, min(cnt, 3), len(views[0]) > 0, outcome))
         if kind == "z":
             rep.count("zscan.set-regime." + (desc.get("score_regime") or "corpus"))
             rep.nontrivial(("zscan-scores", desc.get("score_regime"), min(cnt, 3), desc["via_cmd"], pat is not None, outcome,
@@ -887,6 +912,9 @@ class C19:
                 self.execute({"kind": kind, "count": (1, 3, 10, 100)[(i + j) % 4], "pattern": hx(p), "type": None, "novalues": False,
                               "via_cmd": (i + j) % 3 == 0, "initial": [[hx(t), aux] for t in edge_names], "steps": []}, "corpus")
                 self.rep.count("iter.class-edge-pattern." + kind)
+        # type_filter_case_sensitive_fails: key a is a string; SCAN 0 TYPE STRING / String / string select it alike
+        for sp in (b"string", b"STRING", b"String", b"sTRING"):
+            self.execute(dict(base, count=10, type=hx(sp), via_cmd=True, initial=[[a, "string"], [b, "hash"]], steps=[], type_class="corpus"), "corpus")
         # MATCH on lossily decoded text: the literal pattern ff selects the key fe
         self.execute(dict(base, count=10, pattern="ff", initial=[["fe", "string"], ["ff", "string"]], steps=[]), "corpus")
         for p, t in [(b"\xff", b"\xfe"), (b"?", "é".encode()), (b"[", b"["), (b"[abc", b"a"), (b"[\\]]", b"]"), (b"[z-a]", b"b"), (b"[a-]", b"-"),
@@ -920,6 +948,31 @@ class C19:
                     desc["pattern"] = hx(desc["pattern"]) if desc["pattern"] is not None else None
                     self.execute(desc, "slot-groups")
                     self.rep.count("iter.slot-group-sweep." + kind)
+
+    def type_sweep(self, r, rounds):
+        """TYPE with every type name in lower / upper / capitalised / mixed case and with unknown names, combined with MATCH and
+        COUNT, through handle_scan, over key spaces holding all six types (some with a TTL), unchanged and with churn."""
+        for _ in range(rounds):
+            names = gen_names(r, r.choice([6, 12, 30]))
+            for i, t in enumerate(TYPES):                       # every type is present at least once
+                k = ("k%d:%s" % (i, t)).encode()
+                if k not in names:
+                    names.append(k)
+            ctx = {"pool": TYPES, "states": True}
+            initial = [[hx(k), (TYPES[i % 6] if i >= len(names) - 6 else aux_for(r, "keys", ctx))] for i, k in enumerate(names)]
+            extra = [k for k in gen_names(r, 6) if k not in names]
+            for t in TYPES:
+                for sp in type_spellings(r, t):
+                    pat = r.choice([None, None, b"*", b"k*", b"?*", b"[a-z]*"])
+                    steps = r.choice([[], [], [[["add", hx(r.choice(extra)), t]], [["del", hx(r.choice(names[:6]))]]]]) if extra else []
+                    desc = {"kind": "keys", "count": r.choice([1, 2, 3, 7, 100]), "pattern": hx(pat) if pat is not None else None,
+                            "type": hx(sp.encode()), "novalues": False, "via_cmd": True, "initial": initial, "steps": steps,
+                            "type_class": "lower" if sp == t else "other-case"}
+                    self.execute(desc, "type-sweep")
+            for u in UNKNOWN_TYPES:
+                for via in (True, False):
+                    self.execute({"kind": "keys", "count": r.choice([1, 10]), "pattern": None, "type": hx(u), "novalues": False, "via_cmd": via,
+                                  "initial": initial, "steps": [], "type_class": "unknown"}, "type-sweep")
 
     def malformed(self, r, n):
         """option parsing: wrong arity, bad numbers, unknown options (both sides must refuse alike)"""
@@ -1049,6 +1102,7 @@ class C19:
             for _ in range(3 * scale):
                 self.execute(gen_desc(ir, count, "both"))
         self.slot_groups(r.fork("slot-groups"), 4 * scale)
+        self.type_sweep(r.fork("type-sweep"), 2 * scale)
         self.globs(r.fork("globs"), 12000 * scale)
         self.malformed(r.fork("malformed"), 2500 * scale)
         if tier == "thorough":
